@@ -54,7 +54,7 @@ def gen_operand(rng, shape, unit):
             sh = shape[len(shape) - nd:]
             return {"q": [rng.choice([1, -2, 0.5, 4]) for _ in range(int(np.prod(sh)))], "shape": sh, "unit": qu}
         return {"q": [k], "shape": [], "unit": qu}
-    return rng.choice(["cube", "nddata"])
+    return rng.choice(["cube", "nddata", "cube_nounit", "cube_nounit", "nddata_unit"])
 
 
 def generate(rng, tier):
@@ -121,8 +121,12 @@ def build(case):
 def operand_value(x, case):
     if x == "cube":
         return build(case)[0]
+    if x == "cube_nounit":
+        return build({**case, "unit": None, "unc": None})[0]
     if x == "nddata":
         return NDData(np.ones(case["shape"]))
+    if x == "nddata_unit":
+        return NDData(np.ones(case["shape"]), unit=u.ct)
     if "num" in x:
         return x["num"]
     if "arr" in x:
@@ -167,7 +171,7 @@ def frac(x):
 
 
 def model_operand(x):
-    if x in ("cube", "nddata"):
+    if isinstance(x, str):
         return "nddata"
     if "num" in x:
         return {"num": frac(x["num"])}
@@ -196,7 +200,7 @@ def run(case):
         if ref_err is None:
             try:
                 x = o.get("operand")
-                if x in ("cube", "nddata"):
+                if isinstance(x, str):
                     raise TypeError("cube / NDData operand")
                 if o["op"] in ("add", "radd", "sub", "rsub") and isinstance(x, dict) and ("num" in x or "arr" in x) and \
                         ref.unit != u.dimensionless_unscaled:
